@@ -7,7 +7,8 @@
    schedules the verif hooks impose (writer first / main flow reaches its end first), and the
    flag semantics are checked on the binary. *)
 From Coq Require Import Arith List Bool.
-From Inkfem Require Import Gen.GenCli Model.Cli Proofs.CliProofs.
+From Coq Require Import QArith.
+From Inkfem Require Import Num.NumOps Gen.GenCli Model.Cli Proofs.CliProofs Gen.GenAccept Proofs.AcceptBound.
 Import ListNotations.
 
 Definition code_skeleton : skeleton :=
@@ -45,3 +46,10 @@ Print Assumptions C13_add_in_writer_refuted.
 Theorem C13_create_in_writer_refuted : exists s, reachable create_in_writer (init true false true) s /\ contract s = false.
 Proof. exact create_in_writer_refuted. Qed.
 Print Assumptions C13_create_in_writer_refuted.
+
+(* -e is the error bound actually enforced: the bound handed to the acceptance test
+   (ensureSolutionIsGoodEnough; Model/Recover.v accept, C05_accept_sound / C05_accept_complete) is the
+   option itself for every value of it, zero and negative ones included - no default is put in its place *)
+Theorem C13_error_option_is_the_bound_enforced : forall e : Q, (accept_bound (O:=QOps) e == e)%Q.
+Proof. exact accept_bound_is_the_option. Qed.
+Print Assumptions C13_error_option_is_the_bound_enforced.
